@@ -936,71 +936,105 @@ theorem splitOnce_at (p : Char) (ps a b : List Char) (h : p ∉ a) :
   rw [List.append_assoc, splitOnce_skip p ps a _ h, splitOnce_hit]
   simp
 
-/-- `-D V+=x` (no `+` in `V`): the list `[x]` is merged onto `V` -/
-theorem define_parse_append (e : Env) (V x : String) (hV : '+' ∉ V.toList) :
-    Env.assignFromString e (V ++ "+=" ++ x) = some (e.merge [(V, .list [x])]) := by
-  have hs : (V ++ "+=" ++ x).toList = V.toList ++ ['+', '='] ++ x.toList := by
-    rw [String.toList_append, String.toList_append]; rfl
-  unfold Env.assignFromString
-  rw [hs, splitOnce_at '+' ['='] _ _ hV]
-  simp only [String.ofList_toList]
+/-- `str::strip_suffix('+')` succeeds on `v ++ "+"` -/
+theorem stripPlus_snoc (v : List Char) : stripPlus (v ++ ['+']) = some v := by
+  unfold stripPlus
+  rw [List.reverse_append]
+  simp only [List.reverse_cons, List.reverse_nil, List.nil_append, List.cons_append,
+    List.reverse_reverse]
 
-/-- `-D V=x` (no `+`, no `=` in `V`; no `+=` in `x`): the string `x` is merged onto `V` -/
-theorem define_parse_single (e : Env) (V x : String) (hV1 : '+' ∉ V.toList) (hV2 : '=' ∉ V.toList)
-    (hx : splitOnce ['+', '='] x.toList = none) :
+/-- … and fails exactly when the last character is not `+` -/
+theorem stripPlus_none (v : List Char) : stripPlus v = none ↔ v.getLast? ≠ some '+' := by
+  unfold stripPlus
+  rw [List.getLast?_eq_head?_reverse]
+  cases v.reverse with
+  | nil => simp
+  | cons c r =>
+    by_cases hc : c = '+'
+    · subst hc; simp
+    · simp only [List.head?_cons, ne_eq, Option.some.injEq, hc, not_false_eq_true, iff_true]
+      split
+      · rename_i h; injection h with h1 _; exact absurd h1 hc
+      · rfl
+
+/-- `-D V+=x` (no `=` in `V`): the list `[x]` is merged onto `V`, for EVERY `x`
+    (`V` may contain or even end with `+`: only ONE trailing `+` is stripped) -/
+theorem define_parse_append (e : Env) (V x : String) (hV : '=' ∉ V.toList) :
+    Env.assignFromString e (V ++ "+=" ++ x) = some (e.merge [(V, .list [x])]) := by
+  have hs : (V ++ "+=" ++ x).toList = (V.toList ++ ['+']) ++ ['='] ++ x.toList := by
+    rw [String.toList_append, String.toList_append]
+    show V.toList ++ ['+', '='] ++ x.toList = _
+    simp
+  have hV' : '=' ∉ V.toList ++ ['+'] := by
+    simp only [List.mem_append, List.mem_singleton, not_or]
+    exact ⟨hV, by decide⟩
+  unfold Env.assignFromString
+  rw [hs, splitOnce_at '=' [] _ _ hV']
+  simp only [stripPlus_snoc, String.ofList_toList]
+
+/-- `-D V=x` (no `=` in `V`, `V` does not end with `+`): the string `x` is merged onto `V`,
+    for EVERY `x` (the first `=` separates variable and value) -/
+theorem define_parse_single (e : Env) (V x : String) (hV1 : '=' ∉ V.toList)
+    (hV2 : V.toList.getLast? ≠ some '+') :
     Env.assignFromString e (V ++ "=" ++ x) = some (e.merge [(V, .single x)]) := by
   have hs : (V ++ "=" ++ x).toList = V.toList ++ ['='] ++ x.toList := by
     rw [String.toList_append, String.toList_append]; rfl
-  have h1 : splitOnce ['+', '='] (V.toList ++ ['='] ++ x.toList) = none := by
-    rw [List.append_assoc, splitOnce_skip '+' ['='] _ _ hV1]
-    rw [splitOnce_skip '+' ['='] ['='] _ (by decide), hx]
-    rfl
   unfold Env.assignFromString
-  rw [hs, h1, splitOnce_at '=' [] _ _ hV2]
-  simp only [String.ofList_toList]
+  rw [hs, splitOnce_at '=' [] _ _ hV1]
+  simp only [(stripPlus_none _).2 hV2, String.ofList_toList]
 
-/-- FINDING (`-D V=x` is NOT always "define `V` as `x`"): `+=` is looked for first and anywhere
-    in the argument, so a value containing `+=` turns the assignment into an append to the
-    variable named `V=<text before the +=>`. -/
-theorem define_parse_single_quirk (e : Env) (V x : String) (x1 x2 : List Char) (hV1 : '+' ∉ V.toList)
-    (hx : splitOnce ['+', '='] x.toList = some (x1, x2)) :
-    Env.assignFromString e (V ++ "=" ++ x) =
-      some (e.merge [(V ++ "=" ++ String.ofList x1, .list [String.ofList x2])]) := by
-  have hs : (V ++ "=" ++ x).toList = V.toList ++ ['='] ++ x.toList := by
-    rw [String.toList_append, String.toList_append]; rfl
-  have h1 : splitOnce ['+', '='] (V.toList ++ ['='] ++ x.toList) =
-      some (V.toList ++ (['='] ++ x1), x2) := by
-    rw [List.append_assoc, splitOnce_skip '+' ['='] _ _ hV1,
-      splitOnce_skip '+' ['='] ['='] _ (by decide), hx]
-    rfl
-  have hn : String.ofList (V.toList ++ (['='] ++ x1)) = V ++ "=" ++ String.ofList x1 := by
-    apply String.toList_inj.1
-    rw [String.toList_ofList, String.toList_append, String.toList_append, String.toList_ofList]
-    simp
+/-- both hypotheses of `define_parse_single` are needed: with a `=` in `V` the split happens
+    earlier, with a trailing `+` the assignment is an append (`define_parse_append`) -/
+example : Env.assignFromString [] ("A=B" ++ "=" ++ "x") = some [("A", .single "B=x")] := by decide
+example : Env.assignFromString [] ("V+" ++ "=" ++ "x") = some [("V", .list ["x"])] := by decide
+/-- no hypothesis about `+` inside `V` is needed for the append form -/
+example : Env.assignFromString [] ("V+" ++ "+=" ++ "x") = some [("V+", .list ["x"])] :=
+  define_parse_append [] "V+" "x" (by decide)
+
+/-- an argument is rejected exactly when it contains no `=` -/
+theorem define_parse_none (e : Env) (a : String) :
+    Env.assignFromString e a = none ↔ '=' ∉ a.toList := by
   unfold Env.assignFromString
-  rw [hs, h1]
-  simp only [hn]
+  constructor
+  · intro h hm
+    obtain ⟨s, t, hst⟩ := List.append_of_mem hm
+    have hn : splitOnce ['='] a.toList = none := by
+      cases hr : splitOnce ['='] a.toList with
+      | none => rfl
+      | some ab =>
+        rw [hr] at h
+        dsimp only at h
+        split at h <;> cases h
+    exact (splitOnce_none _ _).1 hn s t (by rw [hst]; simp)
+  · intro h
+    have hn : splitOnce ['='] a.toList = none := by
+      rw [splitOnce_none]
+      intro s t hst
+      apply h
+      rw [hst]
+      simp
+    rw [hn]
 
-/-- the counterexample, on the model (the Rust `assign_from_string` does the same:
-    `split_once("+=")` is tried first): `-D V=a+=b` does not define `V` -/
-example : Env.assignFromString [] "V=a+=b" = some [("V=a", .list ["b"])] := by decide
-example : Env.assignFromString [] "V=a+=b" ≠ some (Env.merge [] [("V", .single "a+=b")]) := by decide
+/-- the former quirk is gone (the Rust `assign_from_string` now does `split_once('=')` first and
+    `strip_suffix('+')` on the variable): `-D V=a+=b` defines `V` as `a+=b` -/
+example : Env.assignFromString [] "V=a+=b" = some [("V", .single "a+=b")] :=
+  define_parse_single [] "V" "a+=b" (by decide) (by decide)
+example : Env.assignFromString [] "V=a+=b" = some (Env.merge [] [("V", .single "a+=b")]) := by decide
 
 example : Env.assignFromString [("V", .list ["w"])] "V+=x" = some [("V", .list ["w", "x"])] :=
   define_parse_append _ "V" "x" (by decide)
 example : Env.assignFromString [("V", .list ["w"])] "V=x" = some [("V", .single "x")] :=
-  define_parse_single _ "V" "x" (by decide) (by decide) (by decide)
+  define_parse_single _ "V" "x" (by decide) (by decide)
 /-- an argument without `=` is rejected -/
 example : Env.assignFromString [] "V" = none := by decide
 example : splitOnce ['='] "a=b=c".toList = some (['a'], "b=c".toList) := by decide
 
 /-- what `-D V=x` / `-D V+=x` alone make of the (initially empty) CLI env -/
-theorem cli_env_single (V x : String) (hV1 : '+' ∉ V.toList) (hV2 : '=' ∉ V.toList)
-    (hx : splitOnce ['+', '='] x.toList = none) :
+theorem cli_env_single (V x : String) (hV1 : '=' ∉ V.toList) (hV2 : V.toList.getLast? ≠ some '+') :
     Env.assignFromString [] (V ++ "=" ++ x) = some [(V, .single x)] :=
-  define_parse_single [] V x hV1 hV2 hx
+  define_parse_single [] V x hV1 hV2
 
-theorem cli_env_append (V x : String) (hV : '+' ∉ V.toList) :
+theorem cli_env_append (V x : String) (hV : '=' ∉ V.toList) :
     Env.assignFromString [] (V ++ "+=" ++ x) = some [(V, .list [x])] :=
   define_parse_append [] V x hV
 
